@@ -1109,7 +1109,7 @@ def matches(E, v, ty):
     if isinstance(ty, TList):
         return (isinstance(v, Ref) and E.cell(v)[0] in ("seq", "pylist", "iter")) or (
             isinstance(v, SV) and isinstance(v.ty, TList)) or isinstance(v, (tuple, list))
-    if isinstance(ty, TDict):
+    if isinstance(ty, (TDict, TPyDict)):
         return isinstance(v, Ref) and E.cell(v)[0] in ("dict", "pydict")
     if isinstance(ty, TTuple):
         return isinstance(v, tuple) and len(v) == len(ty.elems)
@@ -1128,12 +1128,17 @@ def coerce(E, v, ty, key, p):
             return E.new_symlist(v)
         if isinstance(v, (tuple, list)):
             return E.new_symlist(E.pylist_sv(list(v), ty.elem))
-    if isinstance(ty, TDict):
+    if isinstance(ty, (TDict, TPyDict)):
         return v
     if isinstance(ty, TTuple):
         return v
     if ty == TAny:
         return v
+    if isinstance(v, SV) and isinstance(v.ty, TOpt) and v.ty.elem == ty:
+        # an optional value flows into a non-optional parameter: None would be a TypeError in the callee
+        so = sort(v.ty)
+        E.may_raise("TypeError", so.is_none(v.t), 0, "None passed for parameter %s of %s" % (p, key))
+        return E.unbox(SV(so.val(v.t), ty))
     try:
         return box(v, ty) if isinstance(v, SV) or py_ty(v) is not None or v is None else v
     except TypeError:
